@@ -1,5 +1,6 @@
 #include "engine.h"
 #include "gen.h"
+#include "rt.h"
 #include <algorithm>
 #include <functional>
 #include <fstream>
@@ -117,10 +118,27 @@ bool kind_relevant(const std::string& p, VKind k) {
 }
 
 // ---------------------------------------------------------------- dispatch
-Verdict check_plan(const Plan& p, Stats& st) {
+static Verdict check_plan_inner(const Plan& p, Stats& st) {
     if (p.property == "C15") return check_alloc(p, st);
     if (p.property == "C17" && p.extra.gets("mode") == "giant") return check_giant(p, st);
     return p.chr ? check_plan_W(p, st) : check_plan_A(p, st);
+}
+Verdict check_plan(const Plan& p, Stats& st) {
+    if (g_run_jmp_set) return check_plan_inner(p, st);   // nested (shrinking inside a check): the outer guard stays
+    Verdict v;
+    g_run_jmp_set = true;
+    if (sigsetjmp(g_run_jmp, 1) == 0) {
+        v = check_plan_inner(p, st);
+    } else {
+        // objects of the aborted check are leaked on purpose; the world is reset by the next run
+        v.violated = true; v.kind = V_CRASH; v.op = g.violations.empty() ? -1 : g.violations.back().op;
+        v.detail = g.violations.empty() ? "fault in the caller" : g.violations.back().detail;
+        v.op_kind = (v.op >= 0 && v.op < (int)p.ops.size()) ? opkind_name(p.ops[(size_t)v.op].kind) : "-";
+        v.concrete = p; v.ev_hash = g.ev_hash;
+        g.cur = &g.main_ctx; g.main_ctx.in_call = false; g.main_ctx.jmp_set = false; g.yield_hook = nullptr; g.conc = false;
+    }
+    g_run_jmp_set = false;
+    return v;
 }
 
 // ---------------------------------------------------------------- generators per property
